@@ -175,6 +175,9 @@ def _known_none(p, t):
     `v` after `v is None` held stores None)."""
     nones = [a[1] for a, v in p.valuation.items()
              if a[0] == "isnone" and v is True]
+    # d.get(k) where the path has established that k is not in d
+    nones += [("get", a[2], a[1]) for a, v in p.valuation.items()
+              if a[0] == "contains" and v is False]
     if not nones:
         return t
 
